@@ -486,6 +486,26 @@ pub fn families(tier: Tier, variant: &str) -> Vec<Family> {
                 check_fenced(ctx, d.as_bytes(), false)
             }));
         }
+        // every escape kind after a plain prefix of every length (the scratch buffer that receives
+        // the decoded text grows in steps: each escape is decoded at every fill level of it)
+        {
+            const ESCS: &[&str] = &["\\n", "\\u0041", "\\u00e9", "\\u20ac", "\\ud83d\\ude00", "\\ud800", "\\udc00x", "\\ud83d\\u0041"];
+            let maxp: u64 = if q { 40 } else { 140 };
+            let ne = ESCS.len() as u64;
+            v.push(Family::new("fenced/escape-after-every-prefix", (maxp + 1) * ne * 4, move |idx, ctx| {
+                let shape = idx % 4;
+                let e = ESCS[((idx / 4) % ne) as usize];
+                let n = (idx / 4 / ne) as usize;
+                let pre: String = (0..n).map(|i| (b'a' + (i % 26) as u8) as char).collect();
+                let d = match shape {
+                    0 => format!("\"{pre}{e}\""),
+                    1 => format!("\"{pre}{e}{e}tail\""),
+                    2 => format!("{{\"{pre}{e}\":[\"{pre}{e}\",1]}}"),
+                    _ => format!("[\"{e}\",\"{pre}{e}z\"]"),
+                };
+                check_fenced(ctx, d.as_bytes(), false)
+            }));
+        }
         v.push(Family::of_vec("fenced/nesting", nesting_inputs(true).into_iter().filter(|d| d.len() <= 4096).collect(), |d, ctx| check_fenced(ctx, d, false)));
     }
     // plain families: the large spaces, crash / panic oracle
@@ -549,7 +569,7 @@ pub fn families(tier: Tier, variant: &str) -> Vec<Family> {
     v.push(seq("plain/n10", gen::N10, if q { 5 } else { 6 }, b"", b"", false, false));
     {
         let (l, dev, more) = if q { (4, 1, 1) } else { (6, 1, 1) };
-        v.push(Family::of_vec("plain/t16-viable+deviations", c02::viable_with_deviations(l, dev, more), |d, ctx| check_plain(ctx, d, false)));
+        v.push(c02::viable_family(&format!("plain/t16-viable<={l}+deviations<={dev}+tail<={more}"), l, dev, more, |d, ctx| check_plain(ctx, d, false)));
     }
     for (si, seed) in lazy::seed_docs().into_iter().enumerate() {
         let n = seed.len() as u64;
